@@ -524,6 +524,8 @@ def bundle_program(draw, early_virtual=True, steer=True, max_stmts=6):
             stmts.append(Decl("Bundle", name, Ref(b)))
             sc.bundles.append(name)
             btypes[name] = set(btypes[b])
+            if sc.steer:
+                sc.state[name] = "shared"  # an alias is the same wire as its source
     return Program(tuple(stmts))
 
 
